@@ -316,7 +316,7 @@ pub enum ControlMessage {
         trace_token: OwnedTerm,
     },
 
-    /// ALIAS_SEND_TT {38, FromPid, Alias, TraceToken}
+    /// ALIAS_SEND_TT {34, FromPid, Alias, TraceToken}
     AliasSendTt {
         from_pid: OwnedTerm,
         alias: OwnedTerm,
@@ -328,6 +328,38 @@ pub enum ControlMessage {
         message_type: u8,
         fields: Vec<OwnedTerm>,
     },
+}
+
+/// Unlink ids are unsigned 64-bit integers; on the wire they arrive as a small or a big integer.
+fn unlink_id_from_term(term: &OwnedTerm, what: &str) -> Result<u64> {
+    match term {
+        OwnedTerm::Integer(i) if *i >= 0 => Ok(*i as u64),
+        OwnedTerm::Integer(i) => Err(Error::InvalidControlMessage(format!(
+            "{} id must be non-negative: {}",
+            what, i
+        ))),
+        OwnedTerm::BigInt(big)
+            if big.sign.is_positive() && big.digits.iter().skip(8).all(|d| *d == 0) =>
+        {
+            let mut id = 0u64;
+            for (i, d) in big.digits.iter().take(8).enumerate() {
+                id |= (*d as u64) << (8 * i);
+            }
+            Ok(id)
+        }
+        _ => Err(Error::InvalidControlMessage(format!(
+            "{} id must be a non-negative integer of at most 64 bits",
+            what
+        ))),
+    }
+}
+
+fn unlink_id_to_term(id: u64) -> OwnedTerm {
+    if id <= i64::MAX as u64 {
+        OwnedTerm::Integer(id as i64)
+    } else {
+        OwnedTerm::BigInt(erltf::types::BigInt::new(false, id.to_le_bytes().to_vec()))
+    }
 }
 
 impl ControlMessage {
@@ -376,38 +408,20 @@ impl ControlMessage {
             }),
 
             Some(ControlMessageType::UnlinkId) if elements.len() == 4 => {
-                let id_raw = elements[1].as_integer().ok_or_else(|| {
-                    Error::InvalidControlMessage("UNLINK_ID id must be an integer".to_string())
-                })?;
-
-                if id_raw < 0 {
-                    return Err(Error::InvalidControlMessage(format!(
-                        "UNLINK_ID id must be non-negative: {}",
-                        id_raw
-                    )));
-                }
+                let id = unlink_id_from_term(&elements[1], "UNLINK_ID")?;
 
                 Ok(ControlMessage::UnlinkId {
-                    id: id_raw as u64,
+                    id,
                     from_pid: elements[2].clone(),
                     to_pid: elements[3].clone(),
                 })
             }
 
             Some(ControlMessageType::UnlinkIdAck) if elements.len() == 4 => {
-                let id_raw = elements[1].as_integer().ok_or_else(|| {
-                    Error::InvalidControlMessage("UNLINK_ID_ACK id must be an integer".to_string())
-                })?;
-
-                if id_raw < 0 {
-                    return Err(Error::InvalidControlMessage(format!(
-                        "UNLINK_ID_ACK id must be non-negative: {}",
-                        id_raw
-                    )));
-                }
+                let id = unlink_id_from_term(&elements[1], "UNLINK_ID_ACK")?;
 
                 Ok(ControlMessage::UnlinkIdAck {
-                    id: id_raw as u64,
+                    id,
                     from_pid: elements[2].clone(),
                     to_pid: elements[3].clone(),
                 })
@@ -648,7 +662,7 @@ impl ControlMessage {
                 to_pid,
             } => OwnedTerm::Tuple(vec![
                 OwnedTerm::Integer(ControlMessageType::UnlinkId as i64),
-                OwnedTerm::Integer(*id as i64),
+                unlink_id_to_term(*id),
                 from_pid.clone(),
                 to_pid.clone(),
             ]),
@@ -659,7 +673,7 @@ impl ControlMessage {
                 to_pid,
             } => OwnedTerm::Tuple(vec![
                 OwnedTerm::Integer(ControlMessageType::UnlinkIdAck as i64),
-                OwnedTerm::Integer(*id as i64),
+                unlink_id_to_term(*id),
                 from_pid.clone(),
                 to_pid.clone(),
             ]),
@@ -973,7 +987,7 @@ impl ControlMessage {
                 to_pid,
             } => OwnedTerm::Tuple(vec![
                 OwnedTerm::Integer(ControlMessageType::UnlinkId as i64),
-                OwnedTerm::Integer(id as i64),
+                unlink_id_to_term(id),
                 from_pid,
                 to_pid,
             ]),
@@ -984,7 +998,7 @@ impl ControlMessage {
                 to_pid,
             } => OwnedTerm::Tuple(vec![
                 OwnedTerm::Integer(ControlMessageType::UnlinkIdAck as i64),
-                OwnedTerm::Integer(id as i64),
+                unlink_id_to_term(id),
                 from_pid,
                 to_pid,
             ]),
